@@ -79,3 +79,49 @@ func (s *Store) extPrivateClaims(claims map[string]any, scopes []string) map[str
 	}
 	return claims
 }
+
+// ---- C06: key-set shapes and a signing key that changes within one request.
+// SetKeySet replaces the answer of Storage.KeySet by fn's (evaluated on every
+// call, so it can follow the driver's current state): any order, any `use`
+// (also ""), further keys of any type. Default (never called): unchanged.
+var keySetFns sync.Map // *Store -> func() []op.Key
+
+func (s *Store) SetKeySet(fn func() []op.Key) { keySetFns.Store(s, fn) }
+
+func (s *Store) extKeySet() []op.Key {
+	if fn, ok := keySetFns.Load(s); ok {
+		return fn.(func() []op.Key)()
+	}
+	return nil
+}
+
+// RotateAfterSigningKeyCalls arms a one-shot rotation: the k-th SigningKey call
+// from now on still answers the present key, then rotate() runs (it typically
+// replaces s.Signing), so the (k+1)-th call answers the new one.
+type rotation struct {
+	left   int
+	rotate func()
+}
+
+var rotations sync.Map // *Store -> *rotation
+
+func (s *Store) RotateAfterSigningKeyCalls(k int, rotate func()) {
+	if k <= 0 {
+		rotations.Delete(s)
+		return
+	}
+	rotations.Store(s, &rotation{left: k, rotate: rotate})
+}
+
+func (s *Store) extAfterSigningKey() {
+	v, ok := rotations.Load(s)
+	if !ok {
+		return
+	}
+	r := v.(*rotation)
+	r.left--
+	if r.left == 0 {
+		rotations.Delete(s)
+		r.rotate()
+	}
+}
